@@ -253,6 +253,22 @@ CHECKS = {
         note="'No later than the response' is observed as arrival within one second at a draining subscriber; the monitord "
              "network client is not driven (the recorder functions are).",
         ref="DESIGN.md 4 C20"),
+    "C07": dict(
+        module="KMPassword",
+        technique="TLA+ model of directory servers, cached signed records and logins (TLC exhaustive + as-built negative "
+                  "controls) ; TLC-simulated and systematic histories on the real LDAP authenticator with fake LDAPS servers "
+                  "and real signed storage ; TLC trace monitor",
+        text="KMPassword models the directory's password per user, each server as up / erroring / down, the cached record "
+             "(which password, expired, intact signature for that user), the set of directory-confirmed logins, and an "
+             "attacker who can rewrite rows without the signing key. TLC checks AcceptedOnlyWhenAllowed, DirectoryIsFinal "
+             "and RejectEvicts for all bounded histories; two as-built flags (cache decides although a server rejected, "
+             "expiry ignored) are caught. The real lib/pwauth/ldap authenticator runs behind the real login handler "
+             "against two in-process LDAPS servers and the real signed storage; histories of login / password change / "
+             "server state / 96 h expiry / tampering (foreign subject, altered hash, extended column, foreign signature) are "
+             "replayed and every login is judged by the monitor, including refresh-on-accept and evict-on-reject.",
+        note="htpasswd and command back-ends are not driven (Accept <=> backend verdict is direct there); a primary-store "
+             "outage with the mirror answering the cache read is covered by C15's fallback checks, not here.",
+        ref="DESIGN.md 4 C07"),
 }
 PENDING_REASON = "check not built yet in this session (specification module planned in DESIGN.md section 4); not claimed until its check runs clean on the unchanged tree"
 ALL = ["C%02d" % i for i in range(1, 21)]
